@@ -4,13 +4,13 @@ from __future__ import annotations
 from typing import Any, Dict, List
 
 from mc.common import Acc
-from mc.proc_driver import explore_config
+from mc.proc_driver import explore_config, explore_long
 from mc.proc_driver import replay as _replay
 
 META = {
     "kind": "graph",
     "engine": "E2 BFS to fixpoint over tick histories of the real ProcessManager.start() on a fake OS",
-    "rule": "for every (workers in 1..3, max_fails in {-1,0,1,2,3}) all tick histories over the alphabet {subset of workers dies} x {none, SIGHUP, SIGINT, SIGTERM, file change} x {subset of restarted workers crash at start} (+ bounded deviations) are explored breadth-first with de-duplication on the canonical state until no new state appears (fixpoint). Oracle C18 (reference monitor = a counter of dequeued failure-origin restarts + per-tick restart set): start() returns -1 exactly when the number of handled failure restarts reaches max_fails>=1 and never otherwise; a handled reload-all restarts every slot exactly once in that tick and leaves the counter alone; on SIGINT/SIGTERM every live current worker gets exactly one SIGINT, no dead/reaped or foreign pid is signalled, no start follows and the status is None; start() never raises. distinct_nontrivial = distinct (configuration, exit, facts) outcomes.",
+    "rule": "for every (workers in 1..3, max_fails in {-1,0,1,2,3}) all tick histories over the alphabet {subset of workers dies} x {none, SIGHUP, SIGINT, SIGTERM, file change} x {subset of restarted workers crash at start} (+ bounded deviations) are explored breadth-first with de-duplication on the canonical state until no new state appears (fixpoint); in addition every history of 6 (quick) / 8 (thorough) ticks over the 5-letter alphabet {nothing, SIGHUP, file change, worker 0 dies, SIGINT} is run without state matching (guard against state the canonical form cannot see). Oracle C18 (reference monitor = a counter of dequeued failure-origin restarts + per-tick restart set): start() returns -1 exactly when the number of handled failure restarts reaches max_fails>=1 and never otherwise; a handled reload-all restarts every slot exactly once in that tick and leaves the counter alone; on SIGINT/SIGTERM every live current worker gets exactly one SIGINT, no dead/reaped or foreign pid is signalled, no start follows and the status is None; start() never raises. distinct_nontrivial = distinct (configuration, exit, facts) outcomes.",
     "assumptions": [
         "fake multiprocessing.Process/Queue/Event, os.kill, signal.signal, sleep stand for the OS (Linux semantics: kill on a reaped pid raises ProcessLookupError, on a zombie succeeds; is_alive()/join() reap)",
         "per tick: any subset of workers dies, at most one signal/file event, any subset of restarted workers crashes before its start-up wait; deviations (signal between drain and scan, Queue.empty() lag) bounded per history",
@@ -33,6 +33,8 @@ def shards(tier: str, seed: int) -> List[Any]:
                 d = 0  # 3 workers: the plain alphabet already has 320 letters per tick
             out.append({"workers": w, "max_fails": mf, "dev": d, "depth": depth})
     out.append({"wiring": True})
+    for w, mf in ((1, -1), (1, 3), (2, -1)):
+        out.append({"workers": w, "max_fails": mf, "long": 6 if tier == "quick" else 8})
     return out
 
 
@@ -42,6 +44,9 @@ def run_shard(shard: Dict[str, Any]) -> Dict[str, Any]:
         from mc.cli_wiring import check_manager_wiring
 
         check_manager_wiring(acc)
+        return acc.as_dict()
+    if shard.get("long"):
+        explore_long("C18", shard["workers"], shard["max_fails"], shard["long"], acc)
         return acc.as_dict()
     explore_config("C18", shard["workers"], shard["max_fails"], shard["dev"], shard["depth"], acc)
     return acc.as_dict()
